@@ -1154,6 +1154,33 @@ class Sim:
                     return [cont(r[1])]
                 if kind == "inline":
                     return self._inline(fn, env, bb, t, path, depth, r[1], args, cont)
+        # a checked integer conversion of a ranged quantity: two ways on, each with the range cut to its side
+        if names & {"std::convert::TryFrom::try_from", "std::convert::TryInto::try_into"} and len(args) == 1:
+            a0 = self._deref(args[0], path)
+            subs = t["callee"].get("substs") or []
+            if isinstance(a0, Rng) and len(subs) >= 2:
+                to = subs[0] if "std::convert::TryFrom::try_from" in names else subs[1]
+                tr = _ty_range(to)
+                if tr is not None:
+                    lo, hi = max(a0.lo, tr[0]), min(a0.hi, tr[1])
+                    path.events.append(ev)
+                    if lo > hi:
+                        return [cont(Adt("std::result::Result", 1, [UNK]))]
+                    if lo == a0.lo and hi == a0.hi:
+                        return [cont(Adt("std::result::Result", 0, [a0]))]
+                    one_sided = a0.lo >= tr[0] or a0.hi <= tr[1]
+                    e2, p2 = self._clone(env, path)
+                    self.npaths += 1
+                    if one_sided:
+                        r2 = p2.memos[-1].get(id(a0))
+                        if r2 is not None:
+                            if a0.lo >= tr[0]:
+                                r2.lo = hi + 1
+                            else:
+                                r2.hi = lo - 1
+                    err = cont(Adt("std::result::Result", 1, [UNK]), p2, e2)
+                    a0.lo, a0.hi = lo, hi
+                    return [cont(Adt("std::result::Result", 0, [a0])), err]
         # a call through a generic `F: Fn*` parameter whose value is a known closure / fn item
         if len(args) == 2 and any(n in names for n in ("std::ops::Fn::call", "std::ops::FnMut::call_mut",
                                                         "std::ops::FnOnce::call_once")) and "resolved" not in t["callee"]:
@@ -1990,6 +2017,32 @@ class Sim:
             if d[0].variant == 0:
                 return ("value", Adt("std::option::Option", 0, []))
             return ("value", Adt("std::option::Option", 1, [Ref(d[0].fields, 0, ())]))      # a reference to the payload
+        if p in ("std::option::Option::<&T>::copied", "std::option::Option::<&T>::cloned", "std::option::Option::<&mut T>::copied",
+                 "std::option::Option::<&mut T>::cloned") and len(d) == 1 and isinstance(d[0], Adt) and d[0].adt.endswith("Option"):
+            if d[0].variant == 0:
+                return ("value", Adt("std::option::Option", 0, []))
+            v = self._deref(d[0].fields[0], path)
+            if isinstance(v, (int, Rng, Flt)) or v is UNK:
+                return ("value", Adt("std::option::Option", 1, [v]))
+            return ("value", UNK)
+        if p == "std::option::Option::<std::result::Result<T, E>>::transpose" and len(d) == 1 and isinstance(d[0], Adt):
+            if d[0].variant == 0:
+                return ("value", Adt("std::result::Result", 0, [Adt("std::option::Option", 0, [])]))
+            inner = self._deref(d[0].fields[0], path)
+            if isinstance(inner, Adt) and inner.adt.endswith("Result"):
+                if inner.variant == 0:
+                    return ("value", Adt("std::result::Result", 0, [Adt("std::option::Option", 1, [inner.fields[0]])]))
+                return ("value", Adt("std::result::Result", 1, [inner.fields[0]]))
+            return ("value", UNK)
+        if p == "std::result::Result::<std::option::Option<T>, E>::transpose" and len(d) == 1 and isinstance(d[0], Adt):
+            if d[0].variant == 1:
+                return ("value", Adt("std::option::Option", 1, [Adt("std::result::Result", 1, [d[0].fields[0]])]))
+            inner = self._deref(d[0].fields[0], path)
+            if isinstance(inner, Adt) and inner.adt.endswith("Option"):
+                if inner.variant == 0:
+                    return ("value", Adt("std::option::Option", 0, []))
+                return ("value", Adt("std::option::Option", 1, [Adt("std::result::Result", 0, [inner.fields[0]])]))
+            return ("value", UNK)
         if p == "std::option::Option::<T>::ok_or" and len(d) == 2 and isinstance(d[0], Adt):
             if d[0].variant == 1:
                 return ("value", Adt("std::result::Result", 0, [d[0].fields[0]]))
